@@ -97,6 +97,8 @@ def gen_cases(rng, tier: str) -> list[dict]:
                     c["prior"] = prior[:]
                     prior.append(c["p"])
                     cases.append(c)
+    for e, pt in common.int_exact(rng, common.sizes(tier, 60, 600)):
+        cases.append({"origin": "int-exact", "e": wire.expr(e, ids={}), "p": wire.point(pt), "int_exact": True, "prior": []})
     for origin, e in common.expr_stream(rng, tier, common.sizes(tier, 300, 4000), names=("x", "y")):
         prior = []
         for p in common.points_for(rng, e, 3):
@@ -142,7 +144,7 @@ def check_cases(cases: list[dict], rep: Report, known: dict) -> None:
             rep.skip(nc.verdict[5:])
             continue
         rep.corr_checked += 1
-        model = info["model_F0"]
+        model = info["model_Q"] if info.get("int_exact") and not info["model_Q"].startswith("err unsupported") else info["model_F0"]
         rep.count("model-outcome", model.split(" ")[0] + (" " + model.split(" ")[1] if model.startswith("err") else ""))
         if nc.verdict == "match":
             rep.count("impl-outcome", nc.impl[0] if nc.impl[0] == "ok" else nc.impl[1])
